@@ -24,6 +24,8 @@ import (
 // cancellation, Server.Close and the resend/time-out timers (the explorer lets virtual time pass
 // as an explicit, budgeted choice). All interleavings, state-pruned.
 
+var q2WrongID = sim.InBucket(sim.Root, 5, 77)
+
 type q2Scn struct {
 	Name   string
 	Tries  int
@@ -122,7 +124,7 @@ func runQ2(t *testing.T, scn *q2Scn, prefix []int) (x explore.Exec) {
 				verifsched.Point("net-reply")
 				if !y.Conn.IsClosed() {
 					replied = true
-					y.Conn.Inject(peer, sim.Reply(tid, sim.M{"id": sim.IDStr(peerID)}))
+					y.Conn.InjectSync(peer, sim.Reply(tid, sim.M{"id": sim.IDStr(peerID)}))
 				}
 			}()
 		}
@@ -136,7 +138,8 @@ func runQ2(t *testing.T, scn *q2Scn, prefix []int) (x explore.Exec) {
 				verifsched.Tag("h:wrong")
 				verifsched.Point("net-wrong")
 				if !y.Conn.IsClosed() {
-					y.Conn.Inject(sim.UDP4(61, 1, 1, 1, 6112), sim.Reply(tid, sim.M{"id": sim.IDStr(peerID)}))
+					// same t, another port, and a payload of its own (another sender ID)
+					y.Conn.InjectSync(sim.UDP4(61, 1, 1, 1, 6112), sim.Reply(tid, sim.M{"id": sim.IDStr(q2WrongID)}))
 				}
 			}()
 		}
@@ -217,6 +220,8 @@ func runQ2(t *testing.T, scn *q2Scn, prefix []int) (x explore.Exec) {
 			viol = fmt.Sprintf("too-many-sends: %d datagrams for NumTries=%d", sends, scn.Tries)
 		case sendsAtReturn >= 0 && y.Conn.NumWrites() != sendsAtReturn:
 			viol = fmt.Sprintf("send-after-return: %d datagrams had been written when Query returned, %d in the end", sendsAtReturn, y.Conn.NumWrites())
+		case class == "reply" && qr.Reply.R != nil && sim.ID(qr.Reply.R.ID) == q2WrongID:
+			viol = "completed-by-foreign-reply: Query returned the payload of the datagram that came from another port of the queried host"
 		case class == "reply" && !replied:
 			viol = "completed-without-reply: Query returned a reply although none was delivered from the queried address"
 		case class == "ctx" && !cancelled:
